@@ -230,17 +230,17 @@ def mk_rank(prog, variant, text, num=None):
     return Agg("adt:Rank", d, [SString(text)] + ([] if variant == "First" else [num]))
 
 
-def mk_phonetic_suggestion(prog, suggestions, cache=None, user_autocorrect=None, pbuffer=(), regex=()):
-    return struct_of(prog, "PhoneticSuggestion", {
+def mk_phonetic_suggestion(prog, suggestions, cache=None, user_autocorrect=None, pbuffer=(), regex=(), st=None):
+    return struct_of(prog, "PhoneticSuggestion", st=st, values={
         "suggestions": SVec(suggestions), "pbuffer": SString(pbuffer), "regex": SString(regex),
         "cache": cache if cache is not None else SMap("cache"), "phonetic": Opaque("Parser:phonetic"),
         "regex_parser": Opaque("Parser:regex"), "table": Opaque("table"),
         "user_autocorrect": user_autocorrect if user_autocorrect is not None else SMap("user_autocorrect")})
 
 
-def mk_phonetic_method(prog, buffer, psug, selections, prev_selection, modified=0):
-    return struct_of(prog, "PhoneticMethod", {"buffer": SString(buffer), "suggestion": psug, "selections": selections,
-                                               "modified": Opaque("time", modified), "prev_selection": prev_selection})
+def mk_phonetic_method(prog, buffer, psug, selections, prev_selection, modified=0, st=None):
+    return struct_of(prog, "PhoneticMethod", st=st, values={"buffer": SString(buffer), "suggestion": psug, "selections": selections,
+                                                             "modified": Opaque("time", modified), "prev_selection": prev_selection})
 
 
 def pm_field(prog, pm, name):
@@ -249,6 +249,88 @@ def pm_field(prog, pm, name):
 
 def ps_field(prog, ps, name):
     return ps.fields[prog.structs["PhoneticSuggestion"].index(name)]
+
+
+class FileHandle(Opaque):
+    """An open file / an OpenOptions builder in the environment model: only the flags that decide what a write does to the old content."""
+
+    def __init__(self):
+        Opaque.__init__(self, "File", ())
+        self.flags = dict(write=False, create=False, truncate=False, append=False, create_new=False, read=False)
+
+    def copy(self):
+        return self
+
+
+def file_write_models(ctx, decide):
+    """OpenOptions / File::create / BufWriter / to_writer / write_all: each call may fail (decide(name) -> bool); every completed write is
+    recorded in ctx['saves'] with whether it replaces the whole old content (fs::write, File::create, or opened with truncate)."""
+    from mirsym.values import err, ok
+
+    def oo_new(it, args, callee):
+        return FileHandle()
+
+    def oo_flag(it, args, callee):
+        h = args[0].get() if isinstance(args[0], Ref) else args[0]
+        name = callee.strip().split("::")[-1].split("<")[0]
+        v = args[1]
+        h.flags[name] = v if isinstance(v, bool) else True
+        return args[0]
+
+    def oo_open(it, args, callee):
+        h = args[0].get() if isinstance(args[0], Ref) else args[0]
+        if not decide("open"):
+            return err(Opaque("io::Error"))
+        f = FileHandle()
+        f.flags = dict(h.flags)
+        return ok(f)
+
+    def file_create(it, args, callee):
+        if not decide("open"):
+            return err(Opaque("io::Error"))
+        f = FileHandle()
+        f.flags.update(write=True, create=True, truncate=True)
+        return ok(f)
+
+    def bufwriter(it, args, callee):
+        return args[0]
+
+    def handle_of(v):
+        while isinstance(v, Ref):
+            v = v.get()
+        return v if isinstance(v, FileHandle) else None
+
+    def record(v):
+        h = handle_of(v)
+        whole = bool(h is not None and h.flags.get("truncate") and not h.flags.get("append"))
+        ctx.setdefault("saves", []).append(dict(whole=whole, flags=dict(h.flags) if h is not None else None))
+        ctx["writes"] = ctx.get("writes", 0) + 1
+
+    def to_writer(it, args, callee):
+        if not decide("to_writer"):
+            return err(Opaque("serde_json::Error"))
+        record(args[0])
+        return ok(UNIT)
+
+    def write_all(it, args, callee):
+        if not decide("write_all"):
+            return err(Opaque("io::Error"))
+        record(args[0])
+        return ok(UNIT)
+
+    def flush(it, args, callee):
+        return ok(UNIT) if decide("flush") else err(Opaque("io::Error"))
+
+    def rename(it, args, callee):
+        return ok(UNIT) if decide("rename") else err(Opaque("io::Error"))
+    m = {"OpenOptions::new": oo_new, "OpenOptions::open": oo_open, "File::create": file_create, "File::options": oo_new,
+         "BufWriter::new": bufwriter, "BufWriter::with_capacity": lambda it, args, callee: args[1], "LineWriter::new": bufwriter,
+         "serde_json::to_writer": to_writer, "serde_json::to_writer_pretty": to_writer, "to_writer": to_writer, "to_writer_pretty": to_writer, "Write::write_all": write_all, "Write::write": write_all,
+         "Write::flush": flush, "File::sync_all": flush, "File::sync_data": flush, "fs::rename": rename, "File::set_len": flush,
+         "BufWriter::into_inner": lambda it, args, callee: ok(args[0])}
+    for f in ("write", "create", "truncate", "append", "create_new", "read"):
+        m["OpenOptions::" + f] = oo_flag
+    return m
 
 
 def glue_overrides(st, ctx, k_new):
@@ -277,13 +359,16 @@ def glue_overrides(st, ctx, k_new):
     def fs_write(it, args, callee):
         from mirsym.values import ok
         ctx["writes"] = ctx.get("writes", 0) + 1
+        ctx.setdefault("saves", []).append(dict(whole=True, flags=None))
         return ok(UNIT)
 
     def path(it, args, callee):
         return Opaque("PathBuf", ())
-    return {"PhoneticSuggestion::suggest": suggest, "PhoneticSuggestion::suggest_only_phonetic": only_phonetic,
-            "serde_json::to_string": to_string, "fs::write": fs_write,
-            "Config::get_user_phonetic_selection_data": path, "Config::get_user_phonetic_autocorrect": path}
+    m = file_write_models(ctx, lambda name: True)
+    m.update({"PhoneticSuggestion::suggest": suggest, "PhoneticSuggestion::suggest_only_phonetic": only_phonetic,
+              "serde_json::to_string": to_string, "fs::write": fs_write,
+              "Config::get_user_phonetic_selection_data": path, "Config::get_user_phonetic_autocorrect": path})
+    return m
 
 
 def make_phonetic_event(shape):
@@ -408,6 +493,11 @@ def make_phonetic_event(shape):
                     clauses.append(("nonempty_return_means_ongoing", ongb is True))
                 elif ev == "backspace":
                     clauses.append(("empty_return_ends_session", ongb is False))
+        # the index the method remembers as "preselected" (what the next commit is compared with) is the one the assembly computed for
+        # the list this event returned
+        if ev in ("key", "backspace") and c.get("calls", 0) > 0 and shape["sug"] and "last_sel" in c:
+            ps_now = pm_field(prog, c["pm"], "prev_selection")
+            clauses.append(("recorded_preselection_is_the_assemblys_answer", simp(bv(ps_now, 64) == bv(c["last_sel"], 64))))
         # the memo is a pure cache the suffix joining of longer words reads without recomputing: no event of a word drops an entry
         kept = [e for e in c["memo"].entries if e[0] is c["memo_key"] and e[1] is c["memo_val"]]
         clauses.append(("memo_entries_survive_the_event", len(kept) == 1 and len(c["memo_val"].items) == 1))
@@ -610,6 +700,8 @@ def obl_phonetic_glue(check, max_n, budget_s=None):
             found = selection_search(vs[0])
         elif "selection_inside_list" in key or "list_not_empty" in key:
             found = selection_search_other(vs[0])
+        elif vs[0]["clause"] == "recorded_preselection_is_the_assemblys_answer":
+            found = stale_preselection_search()
         elif vs[0]["clause"] == "memo_entries_survive_the_event":
             found = memo_eviction_search()
         elif vs[0]["clause"] in ("flag_matches_state", "terminating_event_clears_composition", "idle_backspace_starts_nothing", "backspace_progress",
@@ -635,6 +727,48 @@ def obl_phonetic_glue(check, max_n, budget_s=None):
         if worst[st] > worst[status]:
             status = st
     check.obligation(name, "mirsym", status, detail + "; %d counterexample models" % len(vio))
+
+
+def stale_preselection_search():
+    """Native: a learned word is typed again (its learned candidate preselected), then the list changes by a backspace or by a key without a
+    character; committing the candidate now preselected must change nothing, committing another one must be learned."""
+    import obl_assembly
+    keys = obl_assembly.char_keys()
+    cfg = {"layout": "avro_phonetic", "database": REPO + "/data", "opts": {"phonetic_suggestion": True}}
+    store = "phonetic-candidate-selection.json"
+
+    def typ(t):
+        return [{"op": "key", "key": keys[ch], "sel": 0} for ch in t]
+    scs, meta = [], []
+    for w in ("sesh", "amar", "kotha", "boi"):
+        for learn in (1, 2):
+            head = [{"op": "new", "config": cfg}] + typ(w) + [{"op": "commit", "index": learn}] + typ(w) + [{"op": "backspace"}]
+            for pick in (0, 1, 2):
+                steps = head + [{"op": "read_user_file", "name": store}, {"op": "commit", "index": pick}, {"op": "read_user_file", "name": store}] + typ(w[:-1]) + [{"op": "get_state"}]
+                scs.append({"steps": steps})
+                meta.append((w, learn, pick, len(head)))
+    for (w, learn, pick, h), sc, r in zip(meta, scs, run_replay_parallel(scs)):
+        rr = r["results"]
+        p = [x for x in rr if "panic" in x]
+        if p:
+            continue        # an index outside a short list: not in contract
+        shown = rr[h - 1].get("suggestion", {})
+        lst, sel = shown.get("list", []), shown.get("sel", 0)
+        if pick >= len(lst):
+            continue
+        before, after = rr[h].get("content"), rr[h + 2].get("content")
+        again = rr[-2].get("suggestion", {})
+        st = rr[-1].get("state", {})
+        if pick == sel and before != after:
+            return sc, rr[h - 1:h + 3], ("%r learned (candidate %d), typed again and one character erased: %r is shown with candidate %d preselected; committing that preselected "
+                                        "candidate rewrites the store from %s to %s" % (w, learn, w[:-1], sel, before, after))
+        if pick != sel:
+            l2, s2 = again.get("list", []), st.get("prev_selection", 0)
+            if s2 >= len(l2) or l2[s2] != lst[pick]:
+                return sc, [rr[h - 1], again, rr[h + 2]], ("%r learned (candidate %d), typed again and one character erased: %r is shown with candidate %d preselected; candidate %d (%r) is "
+                                                          "committed instead, but typing %r again preselects %r (store: %s)" % (
+                                                              w, learn, w[:-1], sel, pick, lst[pick], w[:-1], l2[s2] if s2 < len(l2) else None, after))
+    return None
 
 
 def memo_eviction_search():
@@ -730,7 +864,10 @@ def io_overrides(st, ctx):
 
     def fs_write(it, args, callee):
         ctx["writes"] = ctx.get("writes", 0) + 1
-        return ok(UNIT) if decide("fs_write") else err(Opaque("io::Error"))
+        if decide("fs_write"):
+            ctx.setdefault("saves", []).append(dict(whole=True, flags=None))
+            return ok(UNIT)
+        return err(Opaque("io::Error"))
 
     def path(it, args, callee):
         return Opaque("PathBuf", ())
@@ -746,10 +883,11 @@ def io_overrides(st, ctx):
 
     def ps_new(it, args, callee):
         return mk_phonetic_suggestion(it.p, [], user_autocorrect=args[0])
-    return {"PhoneticSuggestion::new": ps_new, "fs::read": fs_read, "from_slice": from_slice, "File::open": file_open, "File::metadata": metadata,
+    fw = file_write_models(ctx, decide)
+    return dict(fw, **{"PhoneticSuggestion::new": ps_new, "fs::read": fs_read, "from_slice": from_slice, "File::open": file_open, "File::metadata": metadata,
             "Metadata::modified": modified, "fs::metadata": metadata, "Path::exists": exists, "Path::is_file": exists, "PathBuf::exists": exists, "Metadata::len": meta_len, "Read::read_to_end": read_to_end,
             "serde_json::to_string": to_string, "fs::write": fs_write, "Config::get_user_phonetic_selection_data": path,
-            "Config::get_user_phonetic_autocorrect": path, "Parser::new_phonetic": parser, "Parser::new_regex": parser}
+            "Config::get_user_phonetic_autocorrect": path, "Parser::new_phonetic": parser, "Parser::new_regex": parser})
 
 
 def make_userfile(shape):
@@ -835,6 +973,8 @@ def make_userfile(shape):
             clauses.append(("failed_save_loses_at_most_that_choice", len(extra) <= 1 and kept))
             buf = pm_field(prog, pm, "buffer").elems
             clauses.append(("commit_ends_the_word", len(buf) == 0))
+            # the store on disk may hold anything (a longer damaged document, an older longer store): a save that completes replaces it all
+            clauses.append(("save_replaces_the_whole_file", all(sv["whole"] for sv in c.get("saves", []))))
         return recs + eval_clauses(st, clauses, lambda cn, m: dict(kind="violation", clause=cn, inputs=inputs(m), predicted=pred(m)))
     return build, on_path
 
@@ -883,6 +1023,51 @@ def userfile_native(vs, ev):
                 out.append((name, sc, x))
                 break
     return out
+
+
+def save_shrink_native():
+    """Native: the store on disk is longer than the document the next save writes (a damaged long file; a healthy store in which a word is
+    re-learned with a shorter candidate); after the save the file must be the new document, and a new context must know the choice."""
+    import obl_assembly
+    keys = obl_assembly.char_keys()
+    cfg = {"layout": "avro_phonetic", "database": REPO + "/data", "opts": {"phonetic_suggestion": True}}
+    store = "phonetic-candidate-selection.json"
+
+    def typ(t, ctx):
+        return [{"op": "key", "ctx": ctx, "key": keys[ch], "sel": 0} for ch in t]
+    long_valid = json.dumps({"kotha": "কথাবার্তা", "manush": "মানুষজন", "boi": "বইপত্র"}, ensure_ascii=False)
+    starts = [("a damaged store (a three-entry store cut one byte before its end)", long_valid[:-1]),
+              ("a long store of another shape", "[" + ", ".join(["1"] * 60) + "]"),
+              ("a healthy three-entry store", long_valid)]
+    scs, names = [], []
+    for name, content in starts:
+        steps = [{"op": "write_user_file", "name": store, "content": content}, {"op": "new", "ctx": 0, "config": cfg}] + typ("sesh", 0) + \
+                [{"op": "commit", "ctx": 0, "index": 1}, {"op": "read_user_file", "name": store}, {"op": "new", "ctx": 1, "config": cfg}] + typ("sesh", 1) + [{"op": "get_state", "ctx": 1}]
+        scs.append({"steps": steps})
+        names.append(name)
+    # healthy store, a word re-learned with a shorter candidate
+    steps = [{"op": "new", "ctx": 0, "config": cfg}] + typ("sesh", 0) + [{"op": "commit", "ctx": 0, "index": 1}] + typ("kkhet", 0) + [{"op": "commit", "ctx": 0, "index": 4}] + \
+            typ("kkhet", 0) + [{"op": "commit", "ctx": 0, "index": 1}, {"op": "read_user_file", "name": store}, {"op": "new", "ctx": 1, "config": cfg}] + typ("sesh", 1) + [{"op": "get_state", "ctx": 1}]
+    scs.append({"steps": steps})
+    names.append("a store written by the engine itself, then a word re-learned with a shorter candidate")
+    for name, sc, r in zip(names, scs, run_replay(scs)):
+        rr = r["results"]
+        p = [x for x in rr if "panic" in x]
+        if p:
+            return name, sc, "panic: %s" % p[0]["panic"]
+        content = [x for x in rr if x.get("op") == "read_user_file"][-1].get("content")
+        try:
+            doc = json.loads(content)
+            ok_doc = isinstance(doc, dict) and "sesh" in doc
+        except (ValueError, TypeError):
+            ok_doc = False
+        st = rr[-1].get("state", {})
+        lst = rr[-2].get("suggestion", {}).get("list", [])
+        sel = st.get("prev_selection", 0)
+        if not ok_doc or sel != 1:
+            return name, sc, ("after 'sesh' was typed and candidate 1 committed the store file reads %r; a new context typing 'sesh' preselects candidate %d of %s "
+                              "(the learned choice is candidate 1)" % (content, sel, lst[:3]))
+    return None
 
 
 def reload_midword_native():
@@ -938,6 +1123,15 @@ def obl_userfiles(check, budget_s=None):
     for v in vio:
         by_ev.setdefault((v["inputs"]["event"], v["clause"]), []).append(v)
     for (ev, clause), vs in sorted(by_ev.items()):
+        if clause == "save_replaces_the_whole_file":
+            found = save_shrink_native()
+            if found:
+                fname, sc, obs = found
+                check.stats["traces_validated"] += 1
+                st = check.finding("user files: " + fname, "%s: %s" % (fname, obs), dict(scenario=sc, observed=obs, solver_counterexample=vs[0]["inputs"]))
+                if worst[st] > worst[status]:
+                    status = st
+                continue
         if clause == "reload_keeps_the_word_in_progress":
             found = reload_midword_native()
             if found:
